@@ -23,7 +23,13 @@ type ChannelListener struct {
 }
 
 func (ln *ChannelListener) SendToChannel(conn net.Conn) {
-	ln.channel <- conn
+	select {
+	case ln.channel <- conn:
+	case <-ln.context.Done():
+		// the listener is closed and nobody will receive the connection
+		// any more: close it instead of blocking the sender forever
+		conn.Close()
+	}
 }
 
 func (ln *ChannelListener) Accept() (net.Conn, error) {
